@@ -801,3 +801,232 @@ def check_sqlident(R, drv, tier):
     R.cov.setdefault("bounds", {})["K-sqlident"] = (f"names of at most {L} characters, every code point, symbolic length; translate_ident_part from the prqlc MIR, Ident::fmt / "
                                                     "escape_quoted_string / EscapeQuotedString::fmt from the MIR of the sqlparser dependency")
     core.log(f"[K-sqlident] {len(exits2)} exits, {nq} queries, {nviol} violations in {time.time()-t0:.1f}s")
+
+
+def check_litnum(R, drv, tier, want=("spec", "panic")):
+    """K-litnum (C08 / C12): how an integer literal is handed to the SQL library, for every i64.
+    `translate_literal` (arm Literal::Integer, prqlc MIR) is executed with a symbolic value; `format!` of an integer is a model that
+    keeps (type, term) - "the decimal spelling of this number". Decided by z3 per exit path:
+      spec   the result is either Number(dec(i)) with i >= 0 ... or a unary minus applied to Number(dec(m)) with m the magnitude of a
+             negative i as an unsigned number (so that -m = i for every i, i64::MIN included); the `long` flag (an `L` suffix) is false;
+      panic  no panic exit (negating / abs of i64::MIN) is reachable."""
+    import core
+    import kernels
+    from kchecks import _account
+    t0 = time.time()
+    try:
+        src = kernels.sqlparser_src()
+        register_enum("Literal", enum_from_source(os.path.join(core.REPO, "prqlc/prqlc-parser/src/lexer/lr.rs"), "Literal"))
+        vs = enum_from_source(os.path.join(src, "src", "ast", "value.rs"), "Value")
+        register_enum("Value", [v for i, v in enumerate(vs) if v not in vs[:i]])
+        register_enum("Expr", enum_from_source(os.path.join(src, "src", "ast", "mod.rs"), "Expr"))
+        register_enum("UnaryOperator", enum_from_source(os.path.join(src, "src", "ast", "operator.rs"), "UnaryOperator"))
+        funcs = dict(kernels.load(r"^gen_expr::translate_literal($|::promoted)"))
+        i = z3.BitVec("lit_i", 64)
+
+        def m_new_display(I, st, a):
+            return SAgg("fmtarg", "", {0: models.deref(I, st, a[0])})
+
+        def m_args_new(I, st, a):
+            return SAgg("fmtargs", "", {0: models.deref(I, st, a[0]), 1: models.deref(I, st, a[1])})
+
+        def m_format(I, st, a):
+            fa = a[0]
+            parts = decode_template(fa.f[0].f[0])
+            argv = [fa.f[1].f[k] for k in sorted(k for k in fa.f[1].f if isinstance(k, int))]
+            if len(parts) != 1 or parts[0][0] != "arg":
+                raise Inconclusive(f"K-litnum: template {parts}")
+            v = models.deref(I, st, argv[parts[0][1]].f[0])
+            if not isinstance(v, (SInt, SFloat)):
+                raise Inconclusive(f"K-litnum: formatted value {v}")
+            return SAgg("dec", "", {0: v})
+
+        def m_new_debug(I, st, a):
+            return SAgg("fmtarg", "", {0: models.deref(I, st, a[0])})
+
+        def m_is_sign_negative(I, st, a):
+            return SBool(z3.Extract(63, 63, a[0].bits) == 1)
+
+        def m_is_nan(I, st, a):
+            return SBool(z3.fpIsNaN(a[0].fp()))
+
+        def m_into(I, st, a):
+            return SAgg("struct", "ValueWithSpan", {"value": a[0], 0: a[0]})
+        pats = [(re.compile(p), f) for p, f in [
+            (r"^core::fmt::rt::Argument::<'_>::new_display$", m_new_display), (r"^(core::fmt::|std::fmt::)?Arguments::<'_>::new$", m_args_new),
+            (r"^core::fmt::rt::Argument::<'_>::new_debug$", m_new_debug),
+            (r"^core::f64::<impl f64>::is_sign_negative$", m_is_sign_negative), (r"^core::f64::<impl f64>::is_nan$", m_is_nan),
+            (r"^(std|alloc)::fmt::format$", m_format), (r"^must_use$", lambda I, st, a: a[0]),
+            (r"^<(sqlparser::ast::)?Value as (std::convert::|core::convert::)?Into<(sqlparser::ast::)?ValueWithSpan>>::into$", m_into),
+            (r"^Box::<.*>::new$", lambda I, st, a: a[0]),
+        ]]
+        I = Interp(funcs, unwind=8, timeout_s=120)
+        I.stub_patterns = pats
+        I.lazy = True
+        lit = mk_enum("Literal", "Integer", {0: SInt(i, 64, True)})
+        exits = I.run("gen_expr::translate_literal", [lit, SOpaque("ctx", False)], [])
+        fb = z3.BitVec("lit_f_bits", 64)
+        I2 = Interp(funcs, unwind=8, timeout_s=120)
+        I2.stub_patterns = pats
+        I2.lazy = True
+        fexits = I2.run("gen_expr::translate_literal", [mk_enum("Literal", "Float", {0: SFloat(fb)}), SOpaque("ctx", False)], [])
+    except Inconclusive as e:
+        R.engine_error(f"K-litnum: {e}")
+        return
+    _account(R, I, "K-litnum")
+    _account(R, I2, "K-litnum")
+    iv, ie, iu = VARIANTS["Expr"].index("Value"), VARIANTS["Expr"].index("UnaryOp"), VARIANTS["UnaryOperator"].index("Minus")
+    inum = VARIANTS["Value"].index("Number")
+    nret = 0
+
+    def number_of(ex):
+        """(dec term SInt, long flag) of Expr::Value(ValueWithSpan{Value::Number(dec, long)}) or None"""
+        if not (isinstance(ex, SEnum) and ex.ty == "Expr" and ex.disc == iv):
+            return None
+        val = ex.pay[iv][0].f["value"]
+        if not (isinstance(val, SEnum) and val.ty == "Value" and val.disc == inum):
+            return None
+        d, lg = val.pay[inum][0], val.pay[inum][1]
+        if not (isinstance(d, SAgg) and d.kind == "dec" and isinstance(lg, SBool)):
+            return None
+        return d.f[0], lg.t
+
+    def replay(n, what):
+        prql = f"from t\nselect {{x = {n}}}\n" if n >= 0 else f"from t\nderive {{n = {n}}}\nselect {{x = n}}\n"
+        r = drv.compile(prql, "sql.sqlite")
+        import sqlite3
+        if r.get("panic"):
+            R.violation({"engine": "mirsym", "kernel": "K-litnum", "kind": "panic"}, f"K-litnum: the integer literal {n} makes the compiler panic: {r['panic'][:120]}", {"prql": prql})
+            return
+        got = err = None
+        if r.get("ok"):
+            try:
+                con = sqlite3.connect(":memory:")
+                con.execute("create table t(a)")
+                con.execute("insert into t values (1)")
+                got = con.execute(r["sql"]).fetchall()
+            except Exception as ex:
+                err = str(ex)
+        if not r.get("ok") or err or got != [(n,)]:
+            R.violation({"engine": "mirsym", "kernel": "K-litnum", "kind": "integer_value"},
+                        f"K-litnum: the integer literal {n} is emitted as {str(r.get('sql') or r.get('errors'))[:100]!r} ({what}); SQLite: {err or got}", {"prql": prql, "sql": r.get("sql")})
+        else:
+            R.engine_error(f"ENCODER-MISMATCH K-litnum: the model {n} ({what}) does not reproduce through prqlc::compile + SQLite")
+
+    for e in exits:
+        if e.kind == "panic":
+            if "panic" not in want:
+                continue
+            v, model, dt = kernels.check(e.pc, z3.BoolVal(True))
+            R.q(v, dt)
+            if v == "sat":
+                replay(kernels.bv_to_py(model, i), f"panic exit: {e.msg}")
+            continue
+        if e.kind != "return":
+            R.engine_error(f"K-litnum: exit {e.kind} {e.msg}")
+            continue
+        nret += 1
+        if "spec" not in want:
+            continue
+        v0 = e.value
+        ok = isinstance(v0, SEnum) and v0.ty == "Result" and v0.disc == 0
+        ex = v0.pay[0][0] if ok else None
+        goal = None
+        plain = number_of(ex) if ok else None
+        if plain is not None:
+            d, lg = plain
+            w = d.bits
+            same = (z3.SignExt(64 - w, d.t) if d.signed else z3.ZeroExt(64 - w, d.t)) == i if w < 64 else d.t == i
+            nonneg = z3.BoolVal(True) if d.signed else (i >= 0)
+            goal = z3.Not(z3.And(same, nonneg, i >= 0, z3.Not(lg)))
+        elif ok and isinstance(ex, SEnum) and ex.ty == "Expr" and ex.disc == ie:
+            pay = ex.pay[ie]
+            op, inner = pay.get("op", pay.get(0)), pay.get("expr", pay.get(1))
+            inner = models.deref(I, State(), inner) if isinstance(inner, SRef) else inner
+            mag = number_of(inner)
+            if isinstance(op, SEnum) and op.disc == iu and mag is not None:
+                d, lg = mag
+                m64 = z3.ZeroExt(64 - d.bits, d.t) if d.bits < 64 else d.t
+                # -m = i as 64-bit numbers, and m is the true magnitude: i < 0 and (unsigned) m <= 2^63
+                goal = z3.Not(z3.And(i < 0, (0 - m64) == i, z3.ULE(m64, z3.BitVecVal(1 << 63, 64)), z3.Not(lg),
+                                     z3.BoolVal(not d.signed) if d.bits == 64 else z3.BoolVal(True)))
+        if goal is None:
+            R.engine_error(f"K-litnum: result not understood: {str(v0)[:200]}")
+            continue
+        v, model, dt = kernels.check(e.pc, goal)
+        R.q(v, dt)
+        if v == "unknown":
+            R.engine_error("K-litnum: unknown")
+        if v == "sat":
+            replay(kernels.bv_to_py(model, i), "the emitted number is not the literal's value")
+    # ---- floats: the text handed over never starts with a minus sign (a non-NaN float with the sign bit set goes through the minus form)
+    import struct
+    nfret = 0
+    for e in fexits:
+        if e.kind == "panic":
+            v, model, dt = kernels.check(e.pc, z3.BoolVal(True))
+            R.q(v, dt)
+            if v == "sat" and "panic" in want:
+                R.engine_error(f"K-litnum: a panic exit of the float arm is reachable ({e.msg}); no replay for floats")
+            continue
+        if e.kind != "return":
+            R.engine_error(f"K-litnum: float exit {e.kind} {e.msg}")
+            continue
+        nfret += 1
+        if "spec" not in want:
+            continue
+        v0 = e.value
+        ok = isinstance(v0, SEnum) and v0.ty == "Result" and v0.disc == 0
+        ex = v0.pay[0][0] if ok else None
+        sign = z3.Extract(63, 63, fb) == 1
+        nan = z3.fpIsNaN(z3.fpBVToFP(fb, z3.Float64()))
+        goal = None
+        plain = number_of(ex) if ok else None
+        if plain is not None and isinstance(plain[0], SFloat):
+            d, lg = plain
+            goal = z3.Not(z3.And(d.bits == fb, z3.Or(z3.Not(sign), nan), z3.Not(lg)))
+        elif ok and isinstance(ex, SEnum) and ex.ty == "Expr" and ex.disc == ie:
+            pay = ex.pay[ie]
+            op, inner = pay.get("op", pay.get(0)), pay.get("expr", pay.get(1))
+            mag = number_of(inner)
+            if isinstance(op, SEnum) and op.disc == iu and mag is not None and isinstance(mag[0], SFloat):
+                d, lg = mag
+                goal = z3.Not(z3.And(sign, z3.Not(nan), d.bits == (fb ^ z3.BitVecVal(1 << 63, 64)), z3.Not(lg)))
+        if goal is None:
+            R.engine_error(f"K-litnum: float result not understood: {str(v0)[:200]}")
+            continue
+        v, model, dt = kernels.check(e.pc, goal)
+        R.q(v, dt)
+        if v == "unknown":
+            R.engine_error("K-litnum: unknown (float)")
+        if v != "sat":
+            continue
+        bits = model.eval(fb, model_completion=True).as_long()
+        f = struct.unpack("<d", struct.pack("<Q", bits))[0]
+        if f != f or f in (float("inf"), float("-inf")):
+            R.cov.setdefault("unobservable_models", []).append(["K-litnum", hex(bits), "NaN / infinity cannot be written as a PRQL literal that SQLite evaluates"])
+            continue
+        # replay: the constant is bound to a column and negated - the hazard of a leading minus sign is `--`
+        prql = f"from t\nderive {{n = {f!r}}}\nselect {{x = -n}}\n"
+        r = drv.compile(prql, "sql.sqlite")
+        import sqlite3
+        got = err = None
+        if r.get("ok"):
+            try:
+                con = sqlite3.connect(":memory:")
+                con.execute("create table t(a)")
+                con.execute("insert into t values (1)")
+                got = con.execute(r["sql"]).fetchall()
+            except Exception as ex2:
+                err = str(ex2)
+        if r.get("panic") or not r.get("ok") or err or got is None or len(got) != 1 or got[0][0] != -f:
+            R.violation({"engine": "mirsym", "kernel": "K-litnum", "kind": "float_sign"},
+                        f"K-litnum: a column bound to the float constant {f!r} and negated is emitted as {str(r.get('sql') or r.get('errors') or r.get('panic'))[:100]!r}; SQLite: {err or got}",
+                        {"prql": prql, "sql": r.get("sql")})
+        else:
+            R.engine_error(f"ENCODER-MISMATCH K-litnum: the float model {f!r} does not reproduce through prqlc::compile + SQLite")
+    if nret < 2 or nfret < 2:
+        R.engine_error(f"K-litnum: vacuous - {nret} integer / {nfret} float return exits")
+    R.sample({"kernel": "K-litnum", "exits": len(exits), "property": "for every i64 the integer literal is handed over as Number(decimal of i) for i >= 0 and as minus applied to "
+              "Number(decimal of the unsigned magnitude) for i < 0, never with the L suffix; no panic exit", "wall_s": round(time.time() - t0, 2)})
+    core.log(f"[K-litnum] {len(exits)} exits in {time.time()-t0:.1f}s")
